@@ -543,7 +543,14 @@ class Engine:
                 ety = self.join_ty(ety, it.ty)
         items = [T.coerce(i, ety) for i in items]
         units = [z3.Unit(i.t) for i in items]
-        return V(('list', ety), units[0] if len(units) == 1 else z3.Concat(*units))
+        lt = units[0] if len(units) == 1 else z3.Concat(*units)
+        if ety == BYTES:
+            j = self.B.join_fn()
+            acc = items[0].t
+            for i in items[1:]:
+                acc = self.B.concat(acc, i.t)
+            self.axiom(j(lt) == acc)
+        return V(('list', ety), lt)
 
     def e_Dict(self, node, fr):
         if not node.keys:
@@ -1034,7 +1041,8 @@ class Engine:
                         self.prove_internal('None passed for %s' % name, z3.Not(T.is_none(v)), 'TypeError')
                     v = T.opt_val(v)
                 try:
-                    v = T.coerce(v, ty)
+                    if ty != ANY:
+                        v = T.coerce(v, ty)
                 except T.TypeMismatch as e:
                     raise Unsupported('argument %s: %s' % (name, e))
             out[name] = v
